@@ -70,6 +70,12 @@ THEOREMS = [
     "BeyondVerif.C13.stamp_instant_iff",
     "BeyondVerif.C13.writers_convert_scale",
     "BeyondVerif.C13.stamp_instant_roundtrip",
+    "BeyondVerif.C13.segsBack_eq",
+    "BeyondVerif.C13.segs_instants_roundtrip",
+    "BeyondVerif.C13.segs_roundtrip_id",
+    "BeyondVerif.C13.segs_message_scale_shifts",
+    "BeyondVerif.C13.writers_scale_of_segment",
+    "BeyondVerif.C13.segs_roundtrip",
     "BeyondVerif.C13.oem_dump_any_form",
     "BeyondVerif.C13.center_name_roundtrip",
     "BeyondVerif.C13.center_name_roundtrip_xml",
@@ -116,7 +122,9 @@ LEVEL_TEXT = ("Lean theorems over a structural model of beyond/io/ccsds (element
               "returns is accepted by both writers and is a fixed point of dump-then-load: opm_/omm_/oem_redump_total; tdm_redump_total_partial for a single "
               "path). Dates: every date of a message is converted to its TIME_SYSTEM before printing (regenerated: in_scale), so a date labelled like the "
               "message comes back identical and a date labelled otherwise comes back as the same instant (stamp_roundtrip_same_scale, stamp_instant_roundtrip, "
-              "stamp_instant_iff); both OEM writers accept points in any form (oem_dump_any_form); CENTER_NAME of every centre the library can create (analytical bodies, JPL bodies of one to three words, Lagrange points) "
+              "stamp_instant_iff); a message of several segments (OEM ephemerides, TDM signal paths), each labelled with the scale of its own first date: the dates of a segment are converted to the label of THAT segment "
+              "(regenerated from the AST: which object the second argument of in_scale is taken from), so every date of every segment comes back at the same instant under its segment's label, and identical when labelled like its segment "
+              "(segs_roundtrip, segs_roundtrip_id; segs_message_scale_shifts: with one scale for the whole message the instants of a segment are kept iff its clock and the message's show the same reading); both OEM writers accept points in any form (oem_dump_any_form); CENTER_NAME of every centre the library can create (analytical bodies, JPL bodies of one to three words, Lagrange points) "
               "comes back as the frame name through the KVN writers' CamelCase split and the readers' title().replace (center_name_roundtrip, by `decide` over the names regenerated from the live objects; "
               "center_name_roundtrip_xml: both writers test the same regenerated patterns; centre_names_have_no_blank); the thrust window [start, stop) of a continuous maneuver dated by start / median / stop comes back "
               "(thrust_window_roundtrip). Tables regenerated from the source on every run and checked by `decide`: covariance key matrix, OEM row keys, the ten "
@@ -124,7 +132,7 @@ LEVEL_TEXT = ("Lean theorems over a structural model of beyond/io/ccsds (element
               "readers' date_pos, whether the writers convert time scales / forms / Keplerian maneuvers. Exact differential correspondence (message tokens at "
               "written precision, error kinds, clock readings) of the compiled model with the real dumps/loads for all four types x both encodings x re-dump.")
 LEVEL_NOTE = ("whole-message theorems hold for well-formed objects: non-empty texts, a registered frame (the ten Earth-centred ones and every frame centred on a solar-system body, a body of the JPL test kernels or a Lagrange point: regenerated table; an OMM: Earth-centred), covariance / maneuver frames own, QSW or TNW, "
-              "distinct epochs inside an ephemeris, at most nine participants per path, one time scale per message in the structural model (other labels: Model/CcsdsExt.lean); two clauses are false of the current code and "
+              "distinct epochs inside an ephemeris, at most nine participants per path, one time scale per message in the structural model (other labels, one label per segment: Model/CcsdsExt.lean); two clauses are false of the current code and "
               "kept as a `_partial` theorem / kernel-checked counter-witness (open findings: multi-path TDM reloads as a list dumps refuses; "
               "Keplerian maneuvers not written); float formatting/parsing, Date arithmetic, lxml and the splitting of KVN text into tokens are parameters of the "
               "model (exercised by the correspondence and the oracle); Lean kernel + propext/Classical.choice/Quot.sound")
@@ -134,12 +142,12 @@ TRUSTED = [
     "harness/props/C13.py read_tables(): AST extraction of units_dict keys, covariance key matrix / element names / key spelling, frame alias rules of "
     "writers (and the helpers they call) and readers, OEM KVN covariance row keys, OMM theories, TDM writer names / reader keys / metadata triggers, which XML groups each reader "
     "wraps into a list, whether the OMM KVN writer needs data.tle and whether dumps accepts a list of sets -> Generated/CcsdsTables.lean; frame table from the live frame objects; "
-    "date attribute of a ContinuousMan printed as MAN_EPOCH_IGNITION, date_pos used by the readers, presence of a time-scale conversion / form conversion / Keplerian handling in the writers "
+    "date attribute of a ContinuousMan printed as MAN_EPOCH_IGNITION, date_pos used by the readers, presence of a time-scale conversion, the object the reference scale of `in_scale(<point>.date, …)` is taken from (the segment / the whole message; an unrecognised form is an extraction error) / form conversion / Keplerian handling in the writers "
     "-> Generated/CcsdsExtTables.lean",
     "float formatting (the writers' format specs, re-applied by the harness to the reloaded object) and float()/strptime parsing: texts are opaque tokens in the model",
     "lxml serialisation/parsing (element tree <-> text, pretty_print whitespace) and the splitting of KVN text into lines, `key = value [unit]` and whitespace-separated rows",
     "correspondence: real dumps/loads (format by argument and by configuration) vs compiled Lean model on identical messages; exact comparison of all restored fields as written text, of exception kinds, "
-    "of restored clock readings / labels (ext stamp), thrust windows (ext window), form and Keplerian handling (ext form, ext kepl), user-defined keys (ext udkey), "
+    "of restored clock readings / labels (ext stamp; ext segs: messages of 2-3 segments, each in its own scale, some dates labelled otherwise, TDM paths interleaved or not), thrust windows (ext window), form and Keplerian handling (ext form, ext kepl), user-defined keys (ext udkey), "
     "CENTER_NAME written and frame name rebuilt for every centre x both encodings (ext center)",
 ]
 ASSUMPTIONS = [
@@ -149,7 +157,8 @@ ASSUMPTIONS = [
     "free texts (names, comments, user-defined values) are non-empty, do not start or end with blanks and contain none of '=', '[', 'COMMENT', line breaks; only Earth-centred frames (the ten of the quantifier); at most 9 TDM participants per path",
     "KVN user-defined keys are modelled as a sub-dict instead of a key prefix (the prefix arithmetic `k[13:]` is exercised by the oracle and the correspondence on names with underscores, digits, lower case, names that are "
     "prefixes of each other or equal to CCSDS keywords); `key.startswith('MAN_')` is modelled on the seven MAN_ keys the writers produce",
-    "a secondary date labelled in another time scale than the message can only keep its instant, not its label (one TIME_SYSTEM per message): the oracle asks for the instant to 1 us and for the label only when it is the message's",
+    "a secondary date labelled in another time scale than the message can only keep its instant, not its label (one TIME_SYSTEM per message / per segment): the oracle asks for the instant to 1 us and for the label only when it is the one of its segment (OEM: ephemeris, TDM: path); "
+    "`ext segs` is run on the scales whose clocks differ by a constant (UTC, TAI, TT, GPS, no leap second inside a message); UT1 / TDB labels go through `ext stamp` (one date) and the oracle",
 ]
 NOT_COVERED = [
     "covariance / maneuver frames given as the NAME of an inertial frame (the orbit's own or another one): generated, checked by the oracle and the exact correspondence, but outside the well-formedness predicates of the whole-message theorems (own, QSW, TNW)",
@@ -171,10 +180,10 @@ OPEN = [
 RULE = ("correspondence: objects generated from one PRNG (OPM: 10 frames x 6 scales, StateVector or Orbit (Kepler / J2 / no propagator) in cartesian / keplerian / spherical / keplerian_mean / equinoctial / cylindrical form, "
         "name/id as attributes, keyword arguments or absent, originator, kep on/off, covariance absent/own/own by name/QSW/TNW/other inertial frame, 0-3 maneuvers ImpulsiveMan / ContinuousMan (dv or accel; date_pos start/median/stop, any case) "
         "in None/QSW/TNW (any case)/own frame by name/other inertial frame with comment absent/empty/one word/several words, user-defined fields absent/empty/1/2-4 with underscores, digits, lower case, CCSDS keywords, one a prefix of another; "
-        "OMM: via Tle or direct, classification / ephemeris type, covariance, user-defined; OEM: 1-3 segments of 1-12 points with 0..n covariances, linear/lagrange, orders, name absent; TDM: 1-2 paths of 2-4 hops with 2-3 participants, 1-10 epochs, "
-        "Range/Azimut/Elevation(/Doppler), built by append or from a list), restricted to one time scale / cartesian points / non-Keplerian maneuvers for the structural model (frames centred elsewhere than on the Earth included), format by fmt= (4/5) or configuration (1/5); per object 2 round trips + 4 re-dumps; "
-        "plus the ext operations: thrust window (date_pos x duration x date), stamp (site x TIME_SYSTEM x scale), form (fmt x form), kepl (kind), udkey (name), center (every centre x fmt); a case is one request line, distinct = distinct line. "
-        "oracle: the same generators (plus Keplerian maneuvers, non-cartesian OEM points, dates labelled in another scale, and for OPM / OEM with probability 0.12 a frame centred on a solar-system body, "
+        "OMM: via Tle or direct, classification / ephemeris type, covariance, user-defined; OEM: 1-3 segments of 1-12 points with 0..n covariances, linear/lagrange, orders, name absent; TDM: 1-3 paths of 2-4 hops with 2-3 participants, 1-10 epochs, "
+        "Range/Azimut/Elevation(/Doppler), built by append or from a list, the paths one after the other or interleaved, later paths starting with a lag), restricted to one time scale / cartesian points / non-Keplerian maneuvers for the structural model (frames centred elsewhere than on the Earth included), format by fmt= (4/5) or configuration (1/5); per object 2 round trips + 4 re-dumps; "
+        "plus the ext operations: thrust window (date_pos x duration x date), stamp (site x TIME_SYSTEM x scale), segs (OEM / TDM x 2-3 segments x scale per segment x odd labels x interleaving), form (fmt x form), kepl (kind), udkey (name), center (every centre x fmt); a case is one request line, distinct = distinct line. "
+        "oracle: the same generators (plus Keplerian maneuvers, non-cartesian OEM points, dates labelled in another scale, for a TDM of several paths with probability 0.5 one time scale per path (station), and for OPM / OEM with probability 0.12 a frame centred on a solar-system body, "
         "a body of the JPL test kernels or a Lagrange point) and the fixed witness objects; loads(dumps(x)) compared with the ORIGINAL object field by field with the property's tolerances "
         "(epochs: label + clock, or instant for a secondary date labelled otherwise; thrust window start and stop; delta-v; effect of the maneuver on the orbit; frames), KVN vs XML agreement, re-dump of everything loaded, and for every written text its "
         "variants in the optional notations the readers accept (same object, re-dump); failure family = exception type @ innermost beyond/io/ccsds function (or field that differs) + input class")
@@ -365,8 +374,14 @@ def gen_oem(rng, nseg=None):
     return {"type": "oem", "segs": segs, "as_list": nseg > 1 or rng.random() < 0.3}
 
 
+def tdm_obs_scale(spec, ob):
+    """time scale a measurement of a TDM spec is dated in: its own label, else the one of its path (station), else the one of the set"""
+    ps = spec.get("pscale") or []
+    return ob.get("scale") or (ps[ob["path"]] if ob["path"] < len(ps) else None) or spec["scale"]
+
+
 def gen_tdm(rng, doppler=None):
-    npath = rng.choice([1, 1, 2])
+    npath = rng.choice([1, 1, 1, 2, 2, 3])
     paths = []
     for _ in range(npath):
         a, b, c = _name(rng, False), _name(rng, False), _name(rng, False)
@@ -374,14 +389,18 @@ def gen_tdm(rng, doppler=None):
             b = _name(rng, False)
         while c in (a, b):
             c = _name(rng, False)
-        paths.append(rng.choice([[a, b, a], [a, b], [a, b, a], [a, b, c], [a, b, c, a], [a, b, a, c]]))
+        p = rng.choice([[a, b, a], [a, b], [a, b, a], [a, b, c], [a, b, c, a], [a, b, a, c]])
+        if p in paths:
+            continue
+        paths.append(p)
+    npath = len(paths)
     kinds_all = ["Range", "Azimut", "Elevation"]
     if doppler is None:
         doppler = rng.random() < 0.1
     if doppler:
         kinds_all = kinds_all + ["Doppler"]
     import math
-    obs = []
+    per_path = []
     ep = _epoch(rng)
     scale = rng.choice(SCALES)
     n = rng.choice([1, 1, 2, 3, rng.randint(2, 10)])
@@ -390,14 +409,36 @@ def gen_tdm(rng, doppler=None):
         if doppler and "Doppler" not in kinds:
             kinds.append("Doppler")
         nn = n if pi == 0 else rng.choice([1, 2, 3])
+        # every station keeps its own clock: the observations of a path start `lag` after those of the first one
+        lag = 0 if pi == 0 else rng.choice([0, 0, 2500000, rng.randrange(10**7)])
+        mine = []
         for i in range(nn):
             for kd in (kinds if nn > 1 or rng.random() < 0.5 else kinds[:1]):
                 val = {"Range": rng.uniform(3e5, 8e7), "Azimut": rng.choice([rng.uniform(-math.pi, math.pi), rng.uniform(-2 * math.pi, 2 * math.pi), 0.0]),
                        "Elevation": rng.uniform(0, math.pi / 2), "Doppler": rng.uniform(-7000, 7000)}[kd]
-                obs.append({"kind": kd, "path": pi, "epoch": ep + i * 5 * 10**6, "value": val, "scale": None})
+                mine.append({"kind": kd, "path": pi, "epoch": ep + lag + i * 5 * 10**6, "value": val, "scale": None})
+        per_path.append(mine)
+    # order of the measurements inside the set: path after path, or as they were taken (the paths interleaved)
+    if npath > 1 and rng.random() < 0.4:
+        obs = []
+        while any(per_path):
+            for mine in per_path:
+                for _ in range(rng.choice([1, 1, 2])):
+                    if mine:
+                        obs.append(mine.pop(0))
+    else:
+        obs = [o for mine in per_path for o in mine]
+    # time scales: one for the whole set; or each path (station) dated in its own; or one single date labelled otherwise
+    pscale = None
+    if npath > 1 and rng.random() < 0.5:
+        pscale = [scale if pi == 0 and rng.random() < 0.7 else rng.choice(SCALES) for pi in range(npath)]
     if len(obs) > 1 and rng.random() < 0.04:
-        obs[rng.randrange(1, len(obs))]["scale"] = _other_scale(rng, scale)      # one date labelled in another time scale
-    return {"type": "tdm", "scale": scale, "paths": paths, "obs": obs, "by_list": rng.random() < 0.3}
+        o = obs[rng.randrange(1, len(obs))]
+        o["scale"] = _other_scale(rng, (pscale or [scale] * npath)[o["path"]])      # one date labelled in another time scale
+    spec = {"type": "tdm", "scale": scale, "paths": paths, "obs": obs, "by_list": rng.random() < 0.3}
+    if pscale:
+        spec["pscale"] = pscale
+    return spec
 
 
 def gen_omm_checked(rng):
@@ -593,7 +634,7 @@ def build(spec):
         return (ephs if spec["as_list"] else ephs[0]), kw
     if t == "tdm":
         from beyond.utils import measures
-        lst = [getattr(measures, ob["kind"])(spec["paths"][ob["path"]], _date(ob["epoch"], ob.get("scale") or spec["scale"]), ob["value"]) for ob in spec["obs"]]
+        lst = [getattr(measures, ob["kind"])(spec["paths"][ob["path"]], _date(ob["epoch"], tdm_obs_scale(spec, ob)), ob["value"]) for ob in spec["obs"]]
         if spec.get("by_list"):
             return measures.MeasureSet(lst), kw
         ms = measures.MeasureSet()
@@ -826,7 +867,9 @@ def compare(a, b):
         main = {}
         for p in a["obs"]:
             main.setdefault(tuple(p["path"]), p["scale"])         # one segment (one TIME_SYSTEM) per path
-        for p, q in zip(a["obs"], b["obs"]):
+        # the writers split the set by path, in order of first appearance, each path in the order of the set
+        order = list(main)
+        for p, q in zip(sorted(a["obs"], key=lambda o: order.index(tuple(o["path"]))), b["obs"]):
             for k in ("kind", "path"):
                 if p[k] != q[k]:
                     diffs.append((f"obs.{k}", p[k], q[k]))
@@ -917,8 +960,13 @@ def features(spec):
         if any(p.get("scale") and p["scale"] != s["scale"] for s in spec["segs"] for p in s["points"]):
             f.append("mixed-scale")
     if t == "tdm":
-        if any(o.get("scale") and o["scale"] != spec["scale"] for o in spec["obs"]):
-            f.append("mixed-scale")
+        first = {}
+        for o in spec["obs"]:
+            first.setdefault(o["path"], tdm_obs_scale(spec, o))
+        if any(tdm_obs_scale(spec, o) != first[o["path"]] for o in spec["obs"]):
+            f.append("mixed-scale")              # inside one segment
+        if len(set(first.values())) > 1:
+            f.append("scale-per-path")
         for pi in range(len(spec["paths"])):
             if sum(1 for o in spec["obs"] if o["path"] == pi) == 1:
                 f.append("obs1")
@@ -1172,6 +1220,9 @@ def witness_specs():
         opm(mans=[dict(man(None), scale="TT")]),
         {"type": "oem", "segs": [seg([pt(0), dict(pt(5), scale="TT"), pt(10)])], "as_list": False},
         tdm([ob("Range", 0), dict(ob("Range", 12), scale="GPS")]),
+        # two stations, each dating in its own time scale (one TIME_SYSTEM per segment), measurements in the order they were taken
+        dict(tdm([ob("Range", 0), ob("Range", 1, 1), ob("Range", 2), ob("Range", 3, 1)], (("STA", "SAT", "STA"), ("STB", "SAT", "STB"))), pscale=["UTC", "GPS"]),
+        dict(tdm([ob("Range", 0), ob("Range", 1), ob("Range", 2, 1), ob("Range", 3, 1), ob("Range", 4, 2)], (("STA", "SAT", "STA"), ("STB", "SAT", "STB"), ("STC", "SAT"))), pscale=["TT", "UTC", "TAI"]),
         # (fixed 1daca9c) points kept in a non-cartesian form
         {"type": "oem", "segs": [dict(seg([pt(0), pt(1)]), form="keplerian")], "as_list": False},
         # centres other than the Earth: the three-word JPL centre, a two-word one, an analytical body, in both message types that carry CENTER_NAME
@@ -1292,6 +1343,71 @@ def _elems_lists(fn):
 
 def lstr(xs):
     return "[" + ", ".join(json.dumps(x) for x in xs) + "]"
+
+
+def scale_reference(mod, src_name):
+    """In which time scale do the writers of a module print the dates of one segment: `True` = the scale the segment is labelled with
+    (`in_scale(x.date, S.start.scale)` with S bound by the loop over the segments), `False` = a scale fixed once for the whole message
+    (a name bound outside every loop from the object handed to the writer).  Looks at every `in_scale(<loop variable>.date, REF)` call of the
+    module; an unrecognised form of REF is an extraction error, never a default."""
+    parents = {}
+    for n in ast.walk(mod):
+        for c in ast.iter_child_nodes(n):
+            parents[c] = n
+
+    def up(n):
+        while n in parents:
+            n = parents[n]
+            yield n
+
+    def targets(t):
+        return {x.id for x in ast.walk(t) if isinstance(x, ast.Name)}
+
+    def root(e):
+        while isinstance(e, (ast.Attribute, ast.Subscript)):
+            e = e.value
+        return e.id if isinstance(e, ast.Name) else None
+
+    def resolve(ref, at, fn, depth=0):
+        """'segment' / 'message' for the expression `ref` used at node `at` inside function `fn`"""
+        r = root(ref)
+        if r is None or depth > 4:
+            raise RuntimeError(f"{src_name}: cannot tell which object the time scale `{ast.unparse(ref)}` is taken from")
+        loops = [a for a in [at] + list(up(at)) if isinstance(a, (ast.For, ast.comprehension))]
+        comp_owner = [a for a in [at] + list(up(at)) if isinstance(a, (ast.ListComp, ast.GeneratorExp, ast.SetComp, ast.DictComp))]
+        gens = [g for c in comp_owner for g in c.generators]
+        bound_by_loop = [l for l in loops + gens if r in targets(l.target)]
+        if bound_by_loop:
+            return "segment"
+        assigns = [a for a in ast.walk(fn) if isinstance(a, ast.Assign) and any(r in targets(t) for t in a.targets)]
+        if len(assigns) == 1:
+            a = assigns[0]
+            if any(isinstance(x, ast.For) for x in up(a)):
+                return "segment" if root(a.value) is None else resolve(a.value, a, fn, depth + 1)
+            return resolve(a.value, a, fn, depth + 1)
+        if not assigns and r in {x.arg for x in fn.args.args}:
+            return "message"
+        raise RuntimeError(f"{src_name}: cannot tell which object the time scale `{ast.unparse(ref)}` is taken from")
+
+    found = []
+    for fn_ in [n for n in ast.walk(mod) if isinstance(n, ast.FunctionDef) and not n.name.startswith("_loads")]:
+        for call in [n for n in ast.walk(fn_) if isinstance(n, ast.Call) and isinstance(n.func, ast.Name) and n.func.id == "in_scale" and len(n.args) == 2]:
+            first = call.args[0]
+            if not (isinstance(first, ast.Attribute) and first.attr == "date" and isinstance(first.value, ast.Name)):
+                continue
+            var = first.value.id
+            loops = [a for a in up(call) if isinstance(a, ast.For)] + [g for a in up(call) if isinstance(a, (ast.ListComp, ast.GeneratorExp)) for g in a.generators]
+            inner = [l for l in loops if var in targets(l.target)]
+            if not inner:
+                continue                        # not a date of the loop over the points / observations
+            # the loop over the points itself does not count as "the segment"
+            ref = call.args[1]
+            if root(ref) == var:
+                raise RuntimeError(f"{src_name}: `{ast.unparse(call)}` converts a date to its own scale")
+            found.append(resolve(ref, parents[inner[0]] if isinstance(inner[0], ast.For) else call, fn_))
+    if not found:
+        raise RuntimeError(f"{src_name}: no `in_scale(<point>.date, …)` in the writers")
+    return all(x == "segment" for x in found)
 
 
 def read_tables():
@@ -1417,6 +1533,8 @@ def read_tables():
     csrc = open(os.path.join(CCSDS_DIR, "commons.py")).read()
     helpers = [n.name for n in ast.walk(commons) if isinstance(n, ast.FunctionDef) and "change_scale" in ast.get_source_segment(csrc, n)]
     t["scaleConv"] = {k: "change_scale" in src[k + ".py"] or any(re.search(r"\b%s\(" % h, src[k + ".py"]) for h in helpers) for k in ("opm", "oem", "tdm")}
+    # the scale the dates of one segment are converted to: the label of that segment, or one scale for the whole message
+    t["scaleOfSegment"] = {"oem": scale_reference(oem, "oem.py"), "tdm": scale_reference(tdm, "tdm.py")}
     # attribute of a ContinuousMan printed as MAN_EPOCH_IGNITION: `date = man.<attr>` under `isinstance(man, ContinuousMan)`,
     # else the first element returned by the helper that holds that test
     attrs = set()
@@ -1559,6 +1677,8 @@ def extract(ctx):
          f"def opmManScaleConv : Bool := {b(t['scaleConv']['opm'])}",
          f"def oemPointScaleConv : Bool := {b(t['scaleConv']['oem'])}",
          f"def tdmObsScaleConv : Bool := {b(t['scaleConv']['tdm'])}",
+         f"def oemPointScaleOfSegment : Bool := {b(t['scaleOfSegment']['oem'])}",
+         f"def tdmObsScaleOfSegment : Bool := {b(t['scaleOfSegment']['tdm'])}",
          f"def manIgnitionAttr : String := {json.dumps(t['manIgnitionAttr'])}",
          f"def manReadDatePos : String := {json.dumps(t['manReadDatePos'])}",
          f"def oemKvnConvertsForm : Bool := {b(t['oemKvnConvertsForm'])}",
@@ -1711,12 +1831,17 @@ def _model_domain(spec):
     if spec["type"] == "tdm":
         for o in spec["obs"]:
             o["scale"] = None
+        spec.pop("pscale", None)          # a scale per path: `ext segs`
     return spec
 
 
 def _sv0(scale="UTC", ep=7367 * 86400 * 10**6 + 123456, dx=0.0):
     from beyond.orbits import StateVector
     return StateVector([7.0e6 + dx, 1.0e5, -3.0e5, 10.0, 7500.0, 300.0], _date(ep, scale), "cartesian", "EME2000", name="SAT", cospar_id="2020-001A")
+
+
+def _tai_of(m):
+    return _tai(m.date)
 
 
 def ext_cases(rng, n):
@@ -1763,6 +1888,41 @@ def ext_cases(rng, n):
         except Exception as e:
             real = f"err {type(e).__name__}"
         out.append((f"c13 ext stamp {site} {msg} {sc} {clock} {off_s} {off_m}", real, {"op": "stamp", "site": site, "fmt": fmt, "msg": msg, "scale": sc, "clock": clock}))
+    # a message of several segments (OEM: a list of ephemerides, TDM: a set of several paths), every segment dated in its own time
+    # scale, some dates labelled otherwise; scales whose clocks differ by a constant over the message (no UT1 / TDB: `stamp` above)
+    const = ["UTC", "TAI", "TT", "GPS"]
+    for i in range(max(6, n // 2)):
+        fmt = "kvn" if i % 2 == 0 else "xml"
+        site = "tdm" if i % 3 else "oem"
+        base = ep + rng.randrange(10**5) * 10**6 + rng.randrange(10**6)
+        offs = {sc: _us(_date(base, sc)) - _tai(_date(base, sc)) for sc in const}
+        nseg = rng.choice([2, 2, 3])
+        segs = []
+        for k in range(nseg):
+            own = rng.choice(const)
+            seg = []
+            for j in range(rng.choice([2, 2, 3, 4])):
+                sc = own if j == 0 or rng.random() < 0.8 else rng.choice(const)
+                seg.append((base + (j * nseg + k) * 240 * 10**6 + rng.randrange(10**6), sc))
+            segs.append(seg)
+        try:
+            if site == "tdm":
+                ms = [Range([f"ST{k}", "SAT", f"ST{k}"], _date(c, sc), 1e6 + c % 1000) for k, seg in enumerate(segs) for c, sc in seg]
+                if rng.random() < 0.5:                                      # as they were taken: the paths interleaved, each path in order
+                    ms.sort(key=_tai_of)
+                back = loads(dumps(MeasureSet(ms), fmt=fmt))
+                back = [back] if isinstance(back, MeasureSet) else back
+                real = " ".join(f"{len(b)} " + " ".join(f"{_us(m.date)} {m.date.scale.name}" for m in b) for b in back)
+            else:
+                ephs = [Ephem([_sv0(sc, c, float(j)) for j, (c, sc) in enumerate(seg)]) for seg in segs]
+                back = loads(dumps(ephs, fmt=fmt))
+                back = [back] if isinstance(back, Ephem) else back
+                real = " ".join(f"{len(b)} " + " ".join(f"{_us(o.date)} {o.date.scale.name}" for o in b) for b in back)
+        except Exception as e:
+            real = f"err {type(e).__name__}"
+        line = f"c13 ext segs {site} {len(segs)} " + " ".join(f"{len(seg)} " + " ".join(f"{c} {sc}" for c, sc in seg) for seg in segs) + \
+            f" {len(offs)} " + " ".join(f"{sc} {o}" for sc, o in offs.items())
+        out.append((line, real, {"op": "segs", "site": site, "fmt": fmt, "segs": segs}))
     for i in range(max(4, n // 3)):
         name = _ud_key(rng).replace(" ", "")
         typ = "opm" if i % 2 == 0 else "omm"
